@@ -116,6 +116,9 @@ def energy_tokens(es: dict, n: int) -> list:
                 row.append("%d" % int(round(v)))  # a column written without decimal points is read as integers
             else:
                 row.append(_fmt_number(v, es["numfmt"]))
+        if rows and es.get("dup_frac") and rs.random_sample() < es["dup_frac"]:
+            # symmetry-equivalent frames of a rerun without time information: a data line equal to an earlier one
+            row = list(rows[rs.randint(len(rows))])
         rows.append(row)
     return rows
 
@@ -393,7 +396,7 @@ def gen_energy_spec(rng: random.Random, sigma=None, fmt=None, simple: bool = Fal
         half_range = rng.choice([120.0, 200.0, 240.0, 245.0])
     whole = sigma is None and rng.random() < 0.12
     return {"fmt": fmt or rng.choice(["xvg", "xvg", "csv"]), "legends": legends, "column": column, "n_hash": n_hash,
-            "half_range": half_range, "whole_numbers": whole,
+            "half_range": half_range, "whole_numbers": whole, "dup_frac": rng.choice([0, 0, 0, 0.1, 0.5]),
             "n_at": rng.choice([10, 10, 0, 3, 14, rng.randint(0, 12)]), "sigma": sigma if sigma is not None else rng.choice([0.5, 1, 2, 3, 3, 5, 20]),
             "offset": rng.choice([0.0, -40.0, 12.5]), "seed": rng.randrange(2 ** 32),
             "numfmt": "gmx" if simple else rng.choice(["gmx", "gmx", "gmx_e", "repr", "g17"]),
@@ -877,6 +880,8 @@ def c20_tokens(es: dict) -> list:
                 row.append(str(int(round(v))) + (".0" if c == 0 else ""))
             else:
                 row.append(_fmt_number(v, style))
+        if rows and es.get("dup_frac") and rs.random_sample() < es["dup_frac"]:
+            row = list(rows[rs.randint(len(rows))])
         rows.append(row)
     return rows
 
